@@ -196,6 +196,9 @@ func (c *AbstractTokenizer) ReadNextToken() *Token {
 	var token *Token = nil
 
 	for true {
+		// Nothing is carried over from a token skipped in the previous iteration
+		token = nil
+
 		// Read character
 		nextChar := c.Scanner.Peek()
 
